@@ -29,6 +29,11 @@ extra_link_args = {
     'unix': ['-std=c++11', '-g1'],
 }
 
+if os.getenv('DIMOD_VERIF') == '1':
+    # verification hook (off by default): keep assert() and libstdc++ bounds
+    # checks live in the extension build used by external checkers
+    extra_compile_args['unix'] = extra_compile_args['unix'] + ['-UNDEBUG', '-D_GLIBCXX_ASSERTIONS']
+
 
 class build_ext(_build_ext):
     def build_extensions(self):
